@@ -81,7 +81,7 @@ CLAIMS.update({
     "C08": dict(
         technique="branch-consistent path exploration (must-pass-through of the normalising call under normalize_factors=True; core/factor version relation for HOOI) + abstract interpretation of every decomposition's return values (wrapper-object shapes per return statement)",
         text="Decides three structural clauses: with normalisation requested every path from a sweep write to a return -- convergence break, callback stop and iteration cap alike -- passes the normalising call in the 7 drivers that offer the option; every decomposition entry point (CP family, Tucker family, PARAFAC2, TT, TT-matrix, TR-SVD, TR-ALS, CMTF) returns, at every return statement, a value built by its family's validating wrapper constructor, so the validator's format conditions (equal column counts, TT boundary ranks 1, TR closing rank, one projection per PARAFAC2 slice, core/factor agreement) hold on whatever is returned; HOOI's returned core is the projection computed after the last factor write; (RANK-ROTATION) in tensor_ring every sequence rotated by the starting mode is rotated as a cycle of n_dim entries (the rank vector's duplicated closing entry is not part of the cycle). It does NOT decide shapes vs. requested ranks, orthonormality, TT left-orthogonality or 'weights all ones'.",
-        note="Trusted: C03 CTOR-VALIDATES (constructors validate); paths without a sweep write (n_iter_max=0) are outside NORMALISE-ON-EXIT; frozen driver table.",
+        note="Trusted: C03 CTOR-VALIDATES (constructors validate); returns in front of the sweep loop (the all-modes-fixed shortcut) are outside NORMALISE-ON-EXIT; frozen driver table.",
         design="DESIGN.md §3 C08",
     ),
     "C14": dict(
@@ -178,9 +178,11 @@ HISTORY_FREE = " (HISTORY-FREE) no routine of the modules this property is ancho
 ZERO_VALUE = " (ZERO-IS-A-VALUE) in the anchored modules a parameter that names an axis, a mode or a position and defaults to None is never tested by its truth value (`if axis:` treats 0 like None)."
 SENTINEL = " (SENTINEL-INTACT) in the anchored modules a parameter that is compared with a string sentinel (there or in a routine it is handed to) is not passed through set / list / tuple / sorted while it can still be that string."
 MASK_ARGMAX = " (MASK-ARGMAX) in the anchored modules no argmax / argmin is taken over a boolean mask without an any() / all() test of that mask in the same function (the position of the first True is 0 also when nothing is True)."
+ORDER_SET = " (ORDER-FROM-SET) in the anchored modules no ordered sequence (list / tuple / comprehension / unpacking / a loop that appends) is read off a set-typed expression except through sorted(...) or an order-free consumer: modes, axes and factors are addressed by position and a set has no order."
 EXTRA = {
+    "C03": " (CHECKS-INDEPENDENT) in the six validators no rejecting check is the elif / else arm of a test of the factor-loop index against a position unless both arms compare the same index with different constants (first and last position coincide for a one-factor tensor). (BUFFER-CONTEXT) in the factorised-tensor modules a buffer allocated with **context(X) and filled through index_update takes its context from something computed from everything the stored values are computed from (the zero-padded PARAFAC2 tensor, padded TT cores).",
     "C17": " (R7) no name listed in a manager's `_functions` / `_attributes` is bound at module level in that manager's module (the module object is an instance of the manager class: its own namespace shadows the dispatching descriptors).",
-    "C08": " (SCALE-FOLLOWS-FACTOR) after N = cp_normalize(N) no factor of N is built into another factorised tensor without N.weights on any branch-consistent path (CMTF's shared factor). (ABSORBED-ONCE) in initialize_cp, on every path on which a user-supplied CP tensor's weights are multiplied into the factors, the object handed back is built afterwards with unit weights.",
+    "C08": " (SCALE-FOLLOWS-FACTOR) after N = cp_normalize(N) no factor of N is built into another factorised tensor without N.weights on any branch-consistent path (CMTF's shared factor). (ABSORBED-ONCE) in initialize_cp, on every path on which a user-supplied CP tensor's weights are multiplied into the factors, the object handed back is built afterwards with unit weights. NORMALISE-ON-EXIT also covers the zero-sweep path: a return behind the sweep loop reached without any sweep write (iteration cap 0) passes the normalising call too.",
     "C16": " (SEED-KEPT-AS-GIVEN) a constructor that takes a seed stores it as given and makes no generator from it (a generator kept on the object is advanced by every fit).",
     "C20": " (AXIS-FORWARD) a metric that takes `axis` hands it to every metric of the same module it calls.",
     "C15": " Documented in-place options (cp_mode_dot / tucker_mode_dot copy=False) are analysed again with the option at its safe value (copy=True), under which the argument must not be written.",
@@ -194,7 +196,7 @@ EXTRA = {
     "C09": " (SVD-OF-UNFOLDING) by dimensional analysis every matrix handed to an SVD inside tensor_train / tensor_ring / partial_tucker has degree exactly 1 in the data on every branch (an unfolding, not its Gram matrix). (NO-RECAST) in tensor_train / tensor_ring / partial_tucker no value derived from an SVD is re-typed to the context or dtype of the data argument (the property quantifies over integer tensors, whose floating-point cores such a cast truncates). (SCALE-FREE-TEST) inside TT-SVD, TR-SVD and HOOI no order comparison sets a quantity carrying the data's unit against a fixed number (machine epsilon): which directions are kept must not depend on the scale of the input.",
     "C04": " (GUARD-EXACT) in cp_normalize / tucker_normalize / parafac2_normalise the scale that divides a factor and the scale absorbed into the weights / core are the same value or differ only by a guard where(<scale is exactly zero>, 1, scale); a threshold guard leaves a non-null column un-normalised while its norm is still absorbed.",
     "C05": " (BRANCH-AGREE) the transposed and the direct route of randomized_svd call the range finder and the reduced SVD with the same options (sketch size with oversampling, power iterations, seed, number of triplets). (DIV-GUARDED) in the SVD methods of SVD_FUNS and in make_svd_non_negative every division has a strictly positive denominator: by construction (clipped / floored at a positive constant or machine epsilon, square roots and reshapes of such) or because it sits under `if P > Q` with the denominator a factor of the product P of norms and Q >= 0; singular vectors and NNDSVD columns stay finite for exactly singular input and one-signed singular vectors (found and repaired: fix d4592a7). (SCALE-RETURNED) symeig_svd divides by the very singular values it returns. (REORTH-EACH-STEP) in randomized_range_finder's power iteration no product with A / A^H is applied to a sample that was not re-orthonormalised after the previous one, and the sample carried to the next pass comes out of qr (typestate over the inlined loop body).",
-    "C07": " (ACCEPT-EVALUATED) PARAFAC2's line-search step returns the model its error was evaluated on: between the evaluation and the return that hands back (model, error) no part of that model is written.",
+    "C07": " (ACCEPT-EVALUATED) PARAFAC2's line-search step returns the model its error was evaluated on: between the evaluation and the return that hands back (model, error) no part of that model is written. (DERIVED-FRESH) in every iterative driver a local table derived element by element from the model list (cached Gram matrices, norms; plain copies are snapshots) is rebuilt over every position after the model list is re-bound as a whole (orthogonalisation, cp_normalize) and before it is read again.",
     "C14": " (PURE-MOVE, extended) parafac's all-fixed shortcut reads fixed_modes before anything filters it. (INIT-AS-GIVEN) on the path initialize_cp / initialize_constrained_parafac / initialize_tucker take for a user-supplied decomposition, no factor is replaced by the output of a transforming routine (proximal operator, projection, SVD, random draw, clipping; absolute value outside the non-negative option) before it is returned. INIT-AS-GIVEN also covers PARAFAC2's initialize_decomposition.",
 }
 
@@ -216,7 +218,7 @@ def main():
                 "engine": "tlsa",
                 "level_claimed": {
                     "category": "other",
-                    "text": "Static analysis (no execution). " + c["text"] + EXTRA.get(pid, "") + ("" if pid == "C17" else HISTORY_FREE + MASK_ARGMAX + SENTINEL + ZERO_VALUE),
+                    "text": "Static analysis (no execution). " + c["text"] + EXTRA.get(pid, "") + ("" if pid == "C17" else HISTORY_FREE + MASK_ARGMAX + SENTINEL + ZERO_VALUE + ORDER_SET),
                     "design_ref": c["design"],
                 },
                 "level_note": c["note"],
